@@ -25,6 +25,7 @@ import (
 	"fmt"
 	"math/big"
 	"math/rand"
+	"runtime/debug"
 	"sort"
 	"strings"
 	"time"
@@ -305,6 +306,7 @@ func (d *vpDriver) exec(e BEvent, tw *TraceWriter) bool {
 	args := map[string]interface{}{}
 	var err error
 	panicked := ""
+	where := ""
 	outer := d.ctx
 	if e.Ev == "EpochEnd" {
 		outer = d.nextHeader(e, args)
@@ -315,6 +317,11 @@ func (d *vpDriver) exec(e BEvent, tw *TraceWriter) bool {
 		defer func() {
 			if r := recover(); r != nil {
 				panicked = fmt.Sprint(r)
+				if strings.Contains(string(debug.Stack()), "x/operator/keeper.EpochsHooksWrapper.AfterEpochEnd") {
+					where = "operator-epoch-hook"
+				} else {
+					where = "other"
+				}
 			}
 		}()
 		err = d.call(e, args)
@@ -329,6 +336,7 @@ func (d *vpDriver) exec(e BEvent, tw *TraceWriter) bool {
 	}
 	if panicked != "" {
 		ev["err"] = "PANIC: " + panicked
+		ev["where"] = where
 	}
 	tw.Emit(ev)
 	return !(e.Ev == "EpochEnd" && panicked != "")
